@@ -123,4 +123,13 @@ example :
       [.req (.upload 1 ⟨7, 3, 100⟩), .req (.upload 2 ⟨8, 3, 100⟩), .req (.get 2), .req (.move 1 2), .req (.get 2)]
       = [some 70, some 80, some 80, none, some 70] := by decide +kernel
 
+/-- An upload decides what is read next, whatever the cache held and even where keys are not injective (a file system with
+    whole-second time stamps gives two uploads of equal size in one tick the same size+mtime key): the entry written by
+    the upload replaces the one stored under that name, so the upload's answer and the following read are the uploaded
+    object. -/
+theorem c13_upload_overrides_entry (m : Mode) (parse : Nat → Option Nat) (up : Nat → Nat) (s : State) (h : Nat) (f : File) :
+    (stepReq m parse up s (.upload h f)).2 = some (up f.content) ∧
+    (stepReq m parse up (stepReq m parse up s (.upload h f)).1 (.get h)).2 = some (up f.content) := by
+  simp [stepReq, Cache.get, Cache.set]
+
 end C13
